@@ -117,10 +117,10 @@ Qed.
    derive.parameter_sweep metadata".  The code's structure has name/node_uuid/payload_from only. *)
 Definition fvds : procinfo :=
   {| pi_fqcn := "semantiva.examples.test_utils.FloatValueDataSource"; pi_kind := KSource;
-     pi_required := ["value"]; pi_created := [] |}.
+     pi_required := ["value"]; pi_created := []; pi_suppressed := [] |}.
 Definition fvds2 : procinfo :=
   {| pi_fqcn := "semantiva.examples.test_utils.FloatValueDataSourceWithDefault"; pi_kind := KSource;
-     pi_required := []; pi_created := [] |}.
+     pi_required := []; pi_created := []; pi_suppressed := [] |}.
 Definition wit (proc : string) (info : procinfo) (k : N) : config :=
   [{| n_proc := proc; n_params := []; n_info := info; n_ctxkey := None;
       n_sweep := Some {| sw_exprs := [("value", Bin Mult (Const k) (Var "t"))];
